@@ -44,7 +44,7 @@ def gen_args(r, nmax=5):
 def HW():
     P, B, T, E, B2 = "plain", "br", "text", "end", "br2"
     return [
-        (P, b"a1"), (P, b"a2"), (P, b"a3"), (P, b"b7"), (P, b"n01"), (P, b"n02"), (P, b"c1-0"), (P, b"c2-1"), (P, b"d1-ib"), (P, b"x.dom.org"),
+        (P, b"a1"), (P, b"a2"), (P, b"a3"), (P, b"b7"), (P, b"a10"), (P, b"a100"), (P, b"b70"), (P, b"a1x"), (P, b"n01"), (P, b"n02"), (P, b"c1-0"), (P, b"c2-1"), (P, b"d1-ib"), (P, b"x.dom.org"),
         (B, b"a", [(b"1", b"3")], (E,)), (B, b"a", [(b"2", None), (b"4", None)], (E,)), (B, b"a", [(b"3", b"5")], (E,)),
         (B, b"n", [(b"01", b"03")], (E,)), (B, b"n", [(b"1", b"2")], (E,)), (B, b"b", [(b"7", b"8")], (E,)),
         (B, b"d", [(b"1", b"2")], (T, b"-ib")),
@@ -443,7 +443,8 @@ def part_raw(ctx, eng, t, cases):
 
 def gen_wire_case(r, k):
     pool = [b"root", b"bob", b"", b"u" * 40, b"a b", b"\xff\xfe", b"x", b"0", b"1022"]
-    cmds = [b"true", b"", b"echo hi", b"a;b|c $x 'q'", b"\x01\x02", b"c" * 300, b"echo  two  blanks ", b"514", b"x\n y"]
+    cmds = [b"true", b"", b"echo hi", b"a;b|c $x 'q'", b"\x01\x02", b"c" * 300, b"echo  two  blanks ", b"514", b"x\n y",
+            b"L" * 2000 + b"end", b"M" * 2048, b"N" * 2049 + b" tail", b"echo " + b"w " * 2100, b"P" * 5000 + b"z"]
     f = lambda p: r.choice(p) if r.chance(2, 3) else bytes(r.range(1, 255) for _ in range(r.range(0, 12)))
     return {"part": "wire", "stderr": 1 if (k % 4 == 0) else 0, "luser": f(pool), "ruser": f(pool), "cmd": f(cmds)}
 
